@@ -407,6 +407,32 @@ func init() {
 			}
 		}})
 
+	register(&Rule{ID: "C08.dstlookup", Props: []string{"C08", "C07", "C02"}, Floor: 1,
+		Doc: "inside the slash callback the destination validator of a redelegation is looked up only after the destination position was found",
+		Run: func(e *Engine, r *RuleRun) {
+			fn := r.Need("keeper.Keeper.slashRedelegations")
+			if fn == nil {
+				return
+			}
+			fk, fa := FuncKey(fn), e.FA(fn)
+			n := 0
+			for _, c := range CallsTo(fn, "keeper.Keeper.GetAllianceValidator") {
+				n++
+				va := argT(fa, c, 1)
+				ok := fa.HasGuard(c, func(g Guard) bool {
+					if !g.Pos || g.Cond.Op != "extract" || g.Cond.Name != "1" || !g.Cond.Args[0].IsCall("keeper.Keeper.GetDelegation") {
+						return false
+					}
+					a := g.Cond.Args[0].CallArgsT()
+					return len(a) >= 5 && a[3].Eq(va)
+				})
+				r.Check(ok, fk, "destination validator lookup dominated by found destination position", "GetDelegation(delegator, that validator, denom) found", "GetAllianceValidator fails when x/staking has removed the destination validator; a pending redelegation record outlives the position it created (the delegator can undelegate everything and the validator can then be removed), so without a dominating successful lookup of that position one dangling record makes the whole slash callback fail: every pending unbonding and later redelegation of the slashed validator stays unslashed and no rebalance is queued", r.P(c))
+			}
+			if n == 0 {
+				r.OK(fk, "destination validator lookup dominated by found destination position", "no validator lookup in the redelegation slash", e.Pos(fn.Pos()))
+			}
+		}})
+
 	register(&Rule{ID: "C08.swallow", Props: []string{"C08"}, Floor: 1,
 		Doc: "fact: x/staking does not propagate the error of BeforeValidatorSlashed (so assumption A1 must not be applied to the hook)",
 		Run: func(e *Engine, r *RuleRun) {
